@@ -420,3 +420,24 @@ Fixpoint chase_used (depth : nat) (hops : list hop) : list hop :=
 (* Resolver.answer, DNAME target leg: the leg's cut is folded whenever the leg produced a message (targetMsg != nil,
    targetCut != nil), before the splice and before every early return *)
 Definition leg_inherits (dname : bool) (h : hop) : bool := if dname then negb (h_err h) else chase_inherits h.
+
+(* ------------------------------------------------- the stores derived from validated denials *)
+
+(* A validated denial admitted under request tree [tree] is also filed in two derived stores that answer OTHER
+   questions without asking anybody: the RFC 8020 cut (nxDomainCutCache.record: every name below the denied one)
+   and the RFC 8198 proof index (denialProofCache.recordWithKind: every name the retained NSEC / NSEC3 records
+   cover).  Both take the tree's cut (ResponseWriter.WriteMsg hands them cutUntil): a record filed at [now] whose
+   proof allows [ttl] (the minimum over the proof's record TTLs, the SOA minimum, the signatures' original TTLs and
+   validity, the store's ceiling - no floor) ends at min(now + ttl, cut) *)
+Definition derived_end (st : state) (tree : N) (now ttl : Z) : Z :=
+  match cut_time (mt_cut (st_meta st tree)) with
+  | Some c => Z.min (now + ttl) c
+  | None => now + ttl
+  end.
+
+(* ------------------------------------------------- the TTL of an RRset *)
+
+(* resolver.minRRSetTTL: the smallest TTL of the set, 0 for the empty set - what processDelegation takes as "the DS
+   TTL" of the DS set validation retained ([r_ds_ttl]) *)
+Definition rrset_min_ttl (ttls : list Z) : Z :=
+  match ttls with [] => 0 | x :: r => fold_left Z.min r x end.
